@@ -69,7 +69,9 @@ CHECKS = {
    text="Lean 4 theorem `C10.total`: for EVERY string and every character-class environment, the lexer+parser model returns an AST or one of the "
         "four library errors (tokenizing, parsing, unknown function, argument count) - built from lex_progress (every rule consumes a character), "
         "lex_fuel_irrelevant, parse_no_fuel (the recursion budget 4n+8 is never exhausted), parse_no_foreign (grammar actions never take an "
-        "AttributeError/IndexError/NotImplementedError path) and lib_hierarchy (extracted class tree: all four descend from ODataException). "
+        "AttributeError/IndexError/NotImplementedError path) and lib_hierarchy (extracted class tree: all four descend from ODataException); "
+        "`C10.parse_image` (Props/C10Image.lean): every tree the parser returns is in Spec.printable (non-empty lists, `in` has a list, paths hang off identifiers, lambda owners are paths, "
+        "built-in calls have an admissible argument count) - which discharges the hypotheses of the round-trip theorems (C05 C13 C19) and of C12.sql_never_leaks for every accepted filter. "
         "The model is run against the real lexer+parser on all atom sequences up to length 3-4, mutated filters, random Unicode, and long "
         "repetitive inputs under a per-case time budget; outcomes compared exactly (class, position, payload).",
    note="Trusted: Lean kernel, standard axioms, harness. Partial: termination / memory of the real LR driver and of CPython's regex engine are runtime facts (20 s per-case budget, "
@@ -80,9 +82,11 @@ CHECKS = {
         "tables) + model of py_val (int, bool, str, date, time, datetime, guid, duration in exact microseconds), run against the real lexer/parser and "
         "py_val on per-kind ABNF spellings with field boundaries, all duration sign/part combinations, arbitrary string contents, 45 identifiers "
         "(keyword-prefixed, 128/129 characters, namespaces) in several contexts, and all strings of <= 3 atoms over a boundary alphabet; lexer rules "
-        "tied to grammar.py by tie theorems; char-level lemmas (arbitrary string content survives quoting+lexing; lexAll(render ts) = ts) in Props/C06Lex.lean when present.",
+        "tied to grammar.py by tie theorems; Props/C06Image.lean: lexOne_shape / lexAll_shape (every token the lexer emits on ASCII input carries a payload of the shape its rule guarantees: numeric text, "
+        "Boolean spelling, quote-free date / time / GUID, a duration that unpacks, identifiers without double quotes) and accepted_litOk (hence every ACCEPTED ASCII filter satisfies the literal side "
+        "conditions of the SQL theorems). The property itself is judged on the real code on every run from what the generator knows by construction (kind, .val, py_val), incl. boundary years 0001 / 0999.",
    note="Trusted: Lean kernel, standard axioms, harness; the meaning of each spelling is known to the generator by construction. Modelled, not verified: CPython re, "
-        "datetime.fromisoformat, dateutil.isoparse, float(); Duration.py_val in IEEE doubles is modelled exactly (valid for small components). fix: a34c246 (keyword prefixes).",
+        "datetime.fromisoformat, dateutil.isoparse, float(); Duration.py_val in IEEE doubles is modelled exactly (valid for small components). fix: a34c246 (keyword prefixes), b8a3ae1 (years below 1000). Known finding: years outside 0001-9999 (no Python value).",
    design="§6 C06", technique="Lean 4 scanner model + per-token lemmas + tie theorems on the extracted rules + exhaustive short-string differential correspondence"),
  "C19": dict(
    text="Lean 4: `layout_invariant` - for EVERY printable tree any two placements of optional whitespace and either parenthesisation parse to the "
@@ -111,8 +115,8 @@ CHECKS = {
         "with the same skeleton emit pieces of identical shape. The model's text is compared character by character with the three real visitors on every "
         "syntactic position of a string literal x 26 hostile contents x dialect x alias; the REAL text is then tokenised by the Lean tokeniser and its token "
         "shape compared with the same filter holding a benign content; field spellings likewise.",
-   note="Trusted: Lean kernel, standard axioms, Spec/SqlLex.lean (the independent tokeniser), harness. Hypothesis litOk (number / date / GUID texts, names without '\"') is what the "
-        "lexer guarantees (C06) and is a decidable predicate with non-vacuity examples. One known finding (the ESCAPE clause appears only for literals containing a wildcard) has Lean "
+   note="Trusted: Lean kernel, standard axioms, Spec/SqlLex.lean (the independent tokeniser), harness. Hypothesis litOk (number / date / GUID texts, names without '\"') is PROVED for every "
+        "accepted ASCII filter text (C06.accepted_litOk, Props/C06Image.lean); Tie.SqlTemplates ties every function template of the model to the f-strings of the source class. One known finding (the ESCAPE clause appears only for literals containing a wildcard) has Lean "
         "witnesses. fix: 329d7a6 (quotes in LIKE patterns), fae5465, a628179. The table alias is caller-supplied and trusted.",
    design="§6 C07", technique="Lean 4 proof (character-level lexing of the emitted text by induction over the AST + template case analysis) + tie theorems on the handler matrix + exhaustive differential correspondence + independent tokenisation of the real output"),
  "C09": dict(
@@ -133,7 +137,8 @@ CHECKS = {
         "returns SQL or one of the library's exceptions - never AttributeError/TypeError/IndexError/ValueError/NotImplementedError; namespaced calls never reach a handler "
         "(not_handler_of_ns). Completeness of a successful SQL translation is C09's parse_mirror. Executed: the node-kind x operand-position matrix and every built-in x "
         "argument kind x position, for the three SQL dialects and the roundtrip printer against the model (outcome class, payload, text), and for Django / SQLAlchemy ORM / "
-        "Core on the strictly well-typed subset plus relational filters with unknown fields at every depth and same-named relationships on different models.",
+        "Core on the strictly well-typed subset plus relational filters with unknown fields at every depth and same-named relationships on different models. "
+        "Both hypotheses hold for every accepted filter: callsOk by C10.parse_image (Props/C10Image.lean), durOk by C06.accepted_litOk (Props/C06Image.lean, ASCII texts).",
    note="Trusted: Lean kernel, standard axioms, Spec/TypesStrict.lean, harness. Partial: the ORM backends' outcome classes are observed on the real code only (Django's and "
         "SQLAlchemy's internals are not modelled); a refusal raised by the host ORM itself (Django FieldError) is counted as a refusal. Nine leaks were repaired first "
         "(fix: b3ff485 c4949ac 0ae8f2a a3e3835 2c1d307 aff910a a628179 4813a75 3d0299d e93080a 235cac7).",
@@ -145,18 +150,21 @@ CHECKS = {
         "whose evaluation by the SQLite model selects the row iff OData's three-valued semantics makes b true - the chain translates -> C07.lex_pieces -> C09.parse_mirror -> "
         "C01.sound (LIKE vs ordinal substring search, 0-based/1-based shifts, Kleene logic, IS NULL, IN as a Kleene disjunction; 1700 lines). typed_sqlSafe / typed_litOk show "
         "every typed filter meets the side conditions. Executed on every run: typed filters rendered to TEXT by the reference printer -> real parser -> real SQLite dialect -> "
-        "sqlite3 on a 432-row product table and random tables; ids compared row by row with Spec.evalB (700 000 (filter,row) pairs) and with Spec.SqliteSem on the re-read text.",
+        "sqlite3 on a 432-row product table and random tables; ids compared row by row with Spec.evalB (700 000 (filter,row) pairs) and with Spec.SqliteSem on the re-read text. "
+        "Numeric stream (outside the theorem's grammar): floor / ceiling / round of a fractional column compared with integers, judged against Spec/NumFn.lean (roundQ, with floor_spec / "
+        "ceiling_spec / round_near / round_midpoint proved). Tie.SqlTemplates.selectTpl_in_source: every function template of the model is an f-string of the source class it models.",
    note="Trusted: Lean kernel, standard axioms, Spec/ODataSem.lean (reference semantics, profile decisions of DESIGN §4), Spec/SqliteSem.lean (environment model of SQLite, validated against sqlite3 "
         "each run), Spec/SqlLex+SqlParse, harness. semOkB excludes negative substring positions (unspecified), NUL, wrong storage classes, and the two LIKE known findings (ASCII case folding; "
-        "wildcards in a computed pattern) which have Lean witnesses. Dates, floats and 64-bit overflow are outside the semantic model (their translation is covered structurally by C09). "
-        "fix: a701528 c4949ac 329d7a6 fae5465.",
+        "wildcards in a computed pattern) which have Lean witnesses. Dates and 64-bit overflow are outside the semantic model (their translation is covered structurally by C09); fractional values only through the numeric stream (judged, not proved). "
+        "Known finding: round(x) of a negative x on the SQLite dialect (TRUNC(x + 0.5), pinned). fix: a701528 c4949ac 329d7a6 fae5465.",
    design="§6 C01", technique="Lean 4 proof (end-to-end: printer model -> character-level lexing -> precedence-climbing parse -> semantic preservation by mutual induction over a typed grammar) + tie theorems + differential execution against sqlite3"),
  "C02": dict(
    text="Lean 4: model of AstToDjangoQVisitor (Model/Orm.lean djBuild: F / Value parameters / lookups / Q composition / function table with index shifts / type checks / refusals) "
         "composed with the environment model of Django's SQLite compiler (Spec/OrmSql.lean djSql) and of SQLite; theorems `C02.sound` (for every typed filter the visitor translates "
         "and every row inside semOkDj the compiled SQL selects the row iff OData's semantics makes the filter true), dj_never_leaks, dj_translates (Props/C02.lean when present). "
         "Executed on every run: typed filters as TEXT through apply_odata_query (QuerySet and Manager) on in-memory SQLite, ids compared row by row with Spec.evalB and with the "
-        "environment model (150 000+ (filter,row) pairs), visitor outcome classes compared with the model, case-twin sequences.",
+        "environment model (150 000+ (filter,row) pairs), visitor outcome classes compared with the model, case-twin sequences; numeric stream (floor / ceiling / round of a fractional "
+        "column, with and without NULL) judged against Spec/NumFn.lean.",
    note="Trusted: Lean kernel, standard axioms, Spec/ODataSem, Spec/SqliteSem + Spec/OrmSql (environment models, validated each run), harness. Known findings (excluded by semOkDj, counted, Lean-characterised): "
         "LIKE case folding on SQLite, Concat's COALESCE, Django not parenthesising negated / '('-initial operands of = / <>. The Django tests are not collected by the pinned command; "
         "they were run by hand after every fix (98 passed). fix: 4813a75 3d0299d e93080a.",
@@ -165,7 +173,8 @@ CHECKS = {
    text="Lean 4: model of the shared SQLAlchemy visitors (saBuild) + environment model of SQLAlchemy's SQLite compiler (saSql); theorems (Props/C03.lean when present) `C03.sound`, "
         "orm_core_agree (ORM and Core build the same tree for every typed filter), keyword_case (TRUE / True / true), sa_never_leaks, sa_translates. Executed on every run: typed filters as "
         "TEXT through apply_odata_query(select(Model)), apply_odata_query(session.query(Model)) and apply_odata_core(select(table)) on in-memory SQLite: the three entry styles must agree, "
-        "ids compared row by row with Spec.evalB and the environment model (170 000+ pairs), upper-case Boolean keywords, case-twin sequences in one process.",
+        "ids compared row by row with Spec.evalB and the environment model (170 000+ pairs), upper-case Boolean keywords, case-twin sequences in one process; numeric stream (floor / ceiling / "
+        "round of a fractional column) judged against Spec/NumFn.lean (floor on a NULL cell is skipped: SQLAlchemy's pysqlite floor() fallback raises on NULL - environment).",
    note="Trusted: as C02. Known findings: LIKE case folding, wildcards in a computed pattern, div is true division (pinned structurally by the suite); indexof / concat use functions SQLite lacks (outside the "
         "supported fragment on SQLite). fix: 7c0cf2f e81d1f7 235cac7 2c1d307.",
    design="§6 C03", technique="Lean 4 proof over visitor model + environment model + tie theorems + differential execution through the three real entry styles"),
@@ -183,8 +192,10 @@ CHECKS = {
         "and/or/not compositions over a schema (Spec/RelSem.lean); models of what the two ORM visitors build - Django: owner path -> reverse_relationship -> sub-query correlated through the "
         "reversed remote names, body made relative by IdentifierStripper, EXISTS / NOT EXISTS(NOT body); SQLAlchemy: one LEFT OUTER JOIN per traversed relationship, rel.any(body), "
         "~rel.any(~body), bodies that navigate refused (Model/OrmRel.lean) - evaluated the way the ORMs evaluate them (Spec/OrmRelSem.lean). Theorems (Props/C04.lean when present): "
-        "reverse_reaches (the back path reaches the outer row IFF the child is one of the rows the forward path leads to), dj_sound, sa_sound, orms_agree, for every filter of the relational "
-        "grammar, every database with unique keys and every parent row. Executed on every run: every leaf of the relational grammar and seeded compositions on a shape database and random "
+        "reverse_reaches (the back path reaches the outer row IFF the child is one of the rows the forward path leads to), orms_agree (the two ORM plans select the same parents, unconditionally), "
+        "dj_sound_partial / sa_sound_partial (the plan selects exactly the parents Spec.evalR denotes) and dj_sound_typed / sa_sound_typed (the same under the static condition relTyped), for every filter "
+        "of the relational grammar, every database with unique keys and every parent row; the hypotheses lamVarsPlain (lambda variables without namespace: all the parser builds) and evalR-defined "
+        "(every lambda owner is a to-one path ending in a collection) are NEEDED: the statements without them are refuted in Lean (dj_sound_original_false_toOne / _ns, sa_sound_original_false_toOne). Executed on every run: every leaf of the relational grammar and seeded compositions on a shape database and random "
         "databases through Django, select(Model) and session.query(Model); returned parents compared with Spec.evalR and with the plan models; four other root models whose collections / "
         "relationships share names with the first one's, in sequence in one process.",
    note="Trusted: Lean kernel, standard axioms, Spec/RelSem + Spec/RelElab (reference semantics, verification schema), Spec/OrmRelSem (environment model of the ORMs' join / EXISTS machinery, validated each run), harness. "
